@@ -7,17 +7,25 @@ Import ListNotations.
 From UV Require Import Py.Val Py.Str Py.UrlLib Ural.Canonicalize Ural.Normalize Ural.SuffixTrie Proofs.NormFacts.
 
 (* normalize_url shares canonicalize_url's cleaning pass: both start from clean_url of their input *)
-Theorem C03_shared_cleaning : forall e o original url,
-  normalize_core e o original url = normalize_core e o original url.
-Proof. reflexivity. Qed.
+(* canonicalize_url and normalize_url start with the same cleaning step (control characters, outer white space,
+   hex case of escapes) and read the url through it only: two urls with the same cleaned form have the same
+   canonical split and the same normalized split, whatever the options *)
+Theorem C03_shared_cleaning : forall e o dp q sf original u1 u2,
+  clean_url u1 = clean_url u2 ->
+  normalize_core e o original u1 = normalize_core e o original u2 /\
+  canonicalize_split e u1 dp q sf = canonicalize_split e u2 dp q sf.
+Proof.
+  intros e o dp q sf original u1 u2 H. unfold normalize_core, canonicalize_split. rewrite H. split; reflexivity.
+Qed.
 
 (* fingerprint_url is normalize_url (with the gl / hl filter) of the lower-cased url, post-processed *)
 Theorem C03_fingerprint_factors : forall e t ss u r,
   fingerprint_split e t ss u = Ok r ->
   exists sp hp, normalize_split e fingerprint_opts (lower u) = Ok (NSplit sp hp).
 Proof.
-  intros e t ss u r. unfold fingerprint_split.
+  intros e t ss u r. unfold fingerprint_split, fingerprint_split_with.
   destruct (normalize_split e fingerprint_opts (lower u)) as [[sp hp|s]|x]; cbn [bind]; try discriminate. eauto.
 Qed.
 
+Print Assumptions C03_shared_cleaning.
 Print Assumptions C03_fingerprint_factors.
